@@ -208,6 +208,60 @@ Proof.
   exact (inv_final_observed w _ s (reachable_inv w _ tr s Hw H) Hfin).
 Qed.
 
+(* TYPE and LENGTH of what the function of a bundle task receives (and what collect()/icollect() hand on for the
+   bundle): when every member can be read and has a content, it is the LIST of the members' contents -- exactly
+   one entry per member, the i-th entry the content of the i-th member -- for every bundle size >= 1 ... *)
+Theorem bundle_arg_is_member_list : forall c bt, on_content c = true ->
+  let ms := b_members bt in
+  ms <> [] -> (forall m, In m ms -> plain m) ->
+  bundle_content ms = inl (contents ms)
+  /\ length (contents ms) = length ms
+  /\ (forall i d, i < length ms -> nth i ms d = MOk (Some (nth i (contents ms) 0%Z)))
+  /\ btask_result c bt = func_result (b_func bt (contents ms)).
+Proof. exact bundle_arg_shape. Qed.
+
+(* ... in particular for a bundle of exactly ONE file: the function is applied to the one-element list [x], not
+   to the bare content x.  An observation agrees with that (arg_code = 0) only if it is the list [x]; the bare
+   content x is rejected with code 2 (`oarg` keeps the two apart: the harness reports which one it saw). *)
+Theorem bundle_singleton_arg : forall c bt x, on_content c = true -> b_members bt = [MOk (Some x)] ->
+  btask_result c bt = func_result (b_func bt [x])
+  /\ bundle_args [bt] = [Some [x]]
+  /\ (forall o, arg_code (Some [x]) o = 0%Z <-> o = OList [x])
+  /\ arg_code (Some [x]) (OBare x) = 2%Z.
+Proof. exact bundle_singleton. Qed.
+
+(* the comparison the tie evaluates for every bundle task: code 0 iff the function was not called where the
+   read of the bundle fails, resp. was called with exactly the model's list -- a bare content never agrees *)
+Theorem observed_arg_agrees_iff : forall m o, arg_code m o = 0%Z <->
+  (m = None /\ o = ONot) \/ (exists l, m = Some l /\ o = OList l).
+Proof. exact arg_code_zero. Qed.
+
+(* a task's result depends on its own file only (the per-file wrapper has no state shared between tasks: the
+   results of a stream are `map (task_result c)` of the stream).  In EVERY reachable state of imap / map, for any
+   schedule and worker count: the i-th value handed to the caller is the value of the i-th task of the stream; an
+   exception that left the generator is the one of its own task; and the i-th result is unchanged when all the
+   OTHER tasks of the stream are replaced (in particular by tasks that read other files at the same time). *)
+Theorem task_results_independent : forall c ts w tr s, 0 < w ->
+  run w (map (task_result c) ts) init tr = Some s ->
+  (forall i d, i < length (out s) ->
+      i < length ts /\ nth i (fst (observed (map (task_result c) ts) s)) None = value_of (task_result c (nth i ts d)))
+  /\ (forall h d, raised s = Some h ->
+      h < length ts /\ exists e, task_result c (nth h ts d) = Err e /\ snd (observed (map (task_result c) ts) s) = Some e)
+  /\ (forall ts' i d, i < length ts -> i < length ts' -> nth i ts d = nth i ts' d ->
+      nth_res (map (task_result c) ts) i = nth_res (map (task_result c) ts') i).
+Proof. intros c. exact (stream_results_independent (task_result c)). Qed.
+
+(* the same for streams of bundles in the explicit bundle model *)
+Theorem bundle_results_independent : forall c bts w tr s, 0 < w ->
+  run w (map (btask_result c) bts) init tr = Some s ->
+  (forall i d, i < length (out s) ->
+      i < length bts /\ nth i (fst (observed (map (btask_result c) bts) s)) None = value_of (btask_result c (nth i bts d)))
+  /\ (forall h d, raised s = Some h ->
+      h < length bts /\ exists e, btask_result c (nth h bts d) = Err e /\ snd (observed (map (btask_result c) bts) s) = Some e)
+  /\ (forall bts' i d, i < length bts -> i < length bts' -> nth i bts d = nth i bts' d ->
+      nth_res (map (btask_result c) bts) i = nth_res (map (btask_result c) bts') i).
+Proof. intros c. exact (stream_results_independent (btask_result c)). Qed.
+
 (* ------------------------------------------------------------------ non-vacuity *)
 
 (* five files, two workers; file 1 cannot be read (warning), the function returns None for file 2;
@@ -287,6 +341,48 @@ Proof.
     eexists. split; [vm_compute; reflexivity|]. vm_compute. repeat split.
 Qed.
 
+(* a bundle of ONE file: the function (here: 100 * number of entries + their sum) sees the list [4]; the stream
+   [[0,1],[2,3],[4]] of the harness: the model hands the last task the list [4]; the observation "list [4]" agrees,
+   the observation "bare content 4" is code 2 *)
+Example nonvacuous_singleton :
+  let f := fun l : list Z => FRet (Some (Z.of_nat (length l) * 100 + fold_right Z.add 0 l))%Z in
+  let one := {| b_members := [MOk (Some 4%Z)]; b_func := f; b_info := FRet None |} in
+  let cw := {| on_content := true; e2w := true |} in
+  btask_result cw one = Ok (Some 104%Z) /\ bundle_args [one] = [Some [4%Z]] /\
+  (forall m, In m (b_members one) -> plain m) /\ b_members one <> [] /\
+  let bts := [mk_btask [0; 1] [0; 1] 0 1000; mk_btask [2; 3] [2; 3] 0 1001; mk_btask [4] [4] 0 1002]%Z in
+  bundle_args bts = [Some [0; 1]; Some [2; 3]; Some [4]]%Z /\
+  bundle_arg_codes bts [(2, [0; 1]); (2, [2; 3]); (2, [4])]%Z = [0; 0; 0]%Z /\
+  bundle_arg_codes bts [(2, [0; 1]); (2, [2; 3]); (1, [4])]%Z = [0; 0; 2]%Z /\
+  bundle_arg_codes bts [(2, [1; 0]); (0, []); (2, [4; 4])]%Z = [1; 4; 1]%Z.
+Proof.
+  cbn zeta. split; [vm_compute; reflexivity|]. split; [vm_compute; reflexivity|]. split.
+  - intros m [<-|[]]. exists 4%Z. reflexivity.
+  - split; [discriminate|]. vm_compute. repeat split.
+Qed.
+
+(* independence: two streams that agree in task 1 only (task 0 of the second one cannot be read and its function
+   would raise); task 1 completes FIRST in the run of the first stream (a later task finishes while the earlier one
+   is still running) -- the caller gets the value of task 1 at position 1, and the result of task 1 is the same in
+   both streams *)
+Example nonvacuous_independent :
+  let c := {| on_content := true; e2w := false |} in
+  let ts := [mk_task [-1] 0 100; mk_task [-1] 0 101]%Z in
+  let ts' := [mk_task [7] 2 5; mk_task [-1] 0 101]%Z in
+  let tr := [Submit 0; Submit 1; Complete 1; Complete 0; Yield 0; Yield 1] in
+  (exists s, run 2 (map (task_result c) ts) init tr = Some s /\ length (out s) = 2
+             /\ fst (observed (map (task_result c) ts) s) = [Some 100; Some 101]%Z) /\
+  nth 1 ts (mk_task [] 0 0) = nth 1 ts' (mk_task [] 0 0) /\
+  nth_res (map (task_result c) ts) 1 = Ok (Some 101%Z) /\ nth_res (map (task_result c) ts') 1 = Ok (Some 101%Z) /\
+  (exists s, run 2 (map (task_result c) ts') init [Submit 0; Submit 1; Complete 1; Complete 0; Yield 0] = Some s
+             /\ raised s = Some 0 /\ snd (observed (map (task_result c) ts') s) = Some 7%Z).
+Proof.
+  cbn zeta. split.
+  - eexists. split; [vm_compute; reflexivity|]. vm_compute. split; reflexivity.
+  - split; [reflexivity|]. split; [vm_compute; reflexivity|]. split; [vm_compute; reflexivity|].
+    eexists. split; [vm_compute; reflexivity|]. vm_compute. split; reflexivity.
+Qed.
+
 Print Assumptions imap_inv.
 Print Assumptions imap_in_order.
 Print Assumptions imap_all_files_in_order.
@@ -310,3 +406,8 @@ Print Assumptions bundle_task_result.
 Print Assumptions bundle_refines_task.
 Print Assumptions bundle_collect_any_member_order.
 Print Assumptions bundle_read_warning_local.
+Print Assumptions bundle_arg_is_member_list.
+Print Assumptions bundle_singleton_arg.
+Print Assumptions observed_arg_agrees_iff.
+Print Assumptions task_results_independent.
+Print Assumptions bundle_results_independent.
